@@ -11,11 +11,13 @@
        source's content and leaves the source alone;
      - an argument that names the container itself or one of its own elements is evaluated
        to a VALUE before the operation starts ("as if the argument had been copied first").
-   The number of live element instances after every operation is a function of the abstract
-   state (no temporaries survive an operation, nothing leaks).  WHICH function depends on two
-   facts about the implementation (how many instances the embedded end item holds, how many
-   fields an item has); it is therefore defined next to the model (`slive`, LifeModel.v), not
-   here.  *)
+   Between operations the element instances that exist on behalf of a container's CONTENT are
+   one per stored element and one per stored key (`sstored`): no temporary survives an
+   operation, a removed / cleared / overwritten element is gone, nothing leaks.  How many
+   further instances a container keeps for itself (the embedded end item of the node
+   containers holds a default-constructed element) is a fact about the implementation that
+   the property text does not fix; it is defined next to the model (`sent_count`, `sbase`,
+   LifeModel.v), not here, and the harness measures it on an empty container.  *)
 From Coq Require Import ZArith List Bool Arith.
 Import ListNotations.
 
@@ -64,6 +66,10 @@ Definition can_hint (k : kind) : bool := sorted k.
 Definition can_sort (k : kind) : bool := match k with KList => true | _ => false end.
 (* PoolList::append(args...): the element is constructed in place from 0..7 constructor arguments *)
 Definition can_emplace (k : kind) : bool := match k with KPoolList => true | _ => false end.
+(* the one-line wrappers around insert(begin() / end(), ...): List::prepend / append(value),
+   HashMap::prepend / append(key, value), HashSet::prepend / append(key), PoolMap::append(key) *)
+Definition can_insvia (k : kind) (front : bool) : bool :=
+  match k with KList | KHashMap | KHashSet => true | KPoolMap => negb front | _ => false end.
 
 (* ---------------------------------------------------------------------------------------- *)
 (* operations                                                                                 *)
@@ -113,7 +119,11 @@ Inductive op :=
                                       elements that live outside every container *)
 | OInsHint (x : nat) (p : pos) (ka va : arg)
                                    (* Map,MultiMap::insert(position, key, value): p is the hint *)
-| OSort (x : nat).                 (* List::sort() *)
+| OSort (x : nat)                  (* List::sort() *)
+| OInsVia (x : nat) (front : bool) (ka va : arg).
+                                   (* front: List::prepend(v) / HashMap::prepend(k,v) / HashSet::prepend(k);
+                                      back: List::append(v) / HashMap::append(k,v) / HashSet::append(k) /
+                                      PoolMap::append(k) - the arguments may be the container's own elements *)
 
 (* ---------------------------------------------------------------------------------------- *)
 (* pure list helpers (shared with the model)                                                  *)
@@ -157,6 +167,7 @@ Definition pos_idx (p : pos) (len : nat) : nat :=
 (* Array::append and PoolList::append have no position; only List::insert(pos, list) has one *)
 Definition ins_p (k : kind) (p : pos) : pos := match k with KArray | KPoolList => PBack | _ => p end.
 Definition addall_p (k : kind) (p : pos) : pos := match k with KList => p | _ => PBack end.
+Definition via_pos (front : bool) : pos := if front then PFront else PBack.
 (* List::insert(pos, list) keeps inserting in front of the same iterator *)
 Definition pos_next (p : pos) : pos :=
   match p with PFront => PAt 1 | PBack => PBack | PAt i => PAt (S i) end.
@@ -208,6 +219,13 @@ Definition sget (s : sstate) (x : nat) : avar :=
 Definition sset (s : sstate) (x : nat) (v : avar) : sstate := set_at x v s.
 Definition sdead (s : sstate) (x : nat) : bool :=
   match nth_error s x with Some None => true | _ => false end.
+
+(* the element instances the contents account for: one per stored key and one per stored value
+   (PoolMap::append(key) stores a default-constructed value next to the key) *)
+Definition stored_fields (k : kind) : nat := (if has_key k then 1 else 0) + (if has_val k then 1 else 0).
+Definition sstored_var (v : avar) : nat :=
+  match v with Some (k, l) => stored_fields k * length l | None => 0 end.
+Definition sstored (s : sstate) : nat := fold_right (fun v n => sstored_var v + n) 0 s.
 
 (* the VALUE an argument denotes in the current state *)
 Definition sarg_key (s : sstate) (a : arg) : option Z :=
@@ -431,6 +449,19 @@ Definition spec_step (s : sstate) (o : op) : bool * sstate :=
       | Some (k, l) => if can_sort k then (true, sset s x (Some (k, spec_sort l))) else (false, s)
       | None => (false, s)
       end
+  | OInsVia x f ka va =>
+      match sget s x with
+      | Some (k, l) =>
+          if can_insvia k f then
+            match (if need_key k then sarg_key s ka else Some 0%Z),
+                  (if need_val k then sarg_val s va else Some 0%Z) with
+            | Some kz, Some vz =>
+                (true, sset s x (Some (k, spec_ins k l (ins_p k (via_pos f)) kz vz)))
+            | _, _ => (false, s)
+            end
+          else (false, s)
+      | None => (false, s)
+      end
   end.
 
 Fixpoint spec_run (s : sstate) (ops : list op) : sstate :=
@@ -447,7 +478,7 @@ Definition writes (o : op) : list nat :=
   | ONew x _ | ODel x | OCopyNew x _ | OAssign x _ | OClear x | OIns x _ _ _ | ORemAt x _
   | ORemKey x _ | OAddAll x _ _ | ORemAll x _ | OReserve x _ | OResize x _ _
   | OAppendRange x _ _ _ | ORemVia _ x _ | ONewCap x _ _ | OFind x _ | OEmplace x _ | OAppendVals x _
-  | OInsHint x _ _ _ | OSort x => [x]
+  | OInsHint x _ _ _ | OSort x | OInsVia x _ _ _ => [x]
   | OSwap x y => [x; y]
   end.
 
@@ -465,6 +496,7 @@ Definition mentions (o : op) : list nat :=
   | OFind x ka => x :: arg_vars ka
   | OEmplace x args => x :: flat_map arg_vars args
   | OInsHint x _ ka va => x :: arg_vars ka ++ arg_vars va
+  | OInsVia x _ ka va => x :: arg_vars ka ++ arg_vars va
   end.
 
 (* "as if the argument had been copied first": a reference to an element becomes the value
@@ -500,6 +532,7 @@ Definition dealias (s : sstate) (t : nat) (o : op) : list op :=
       end
   | OEmplace x args => [OEmplace x (map (dealias_val s) args)]
   | OInsHint x p ka va => [OInsHint x p (dealias_key s ka) (dealias_val s va)]
+  | OInsVia x f ka va => [OInsVia x f (dealias_key s ka) (dealias_val s va)]
   | _ => [o]
   end.
 
